@@ -98,7 +98,7 @@ class Check:
             from translator import regen_all
         except ImportError:
             return
-        for msg in regen_all.regenerate():
+        for msg in regen_all.regenerate(self.cid):
             if msg.startswith('ERROR'):
                 self.broken.append('translator: ' + msg)
 
